@@ -379,13 +379,17 @@ func (e *Engine) eagerInit() {
 	var pk []*ssa.Package
 	for _, p := range e.allPkgs {
 		path := p.Pkg.Path()
-		if strings.HasPrefix(path, "deps.dev/") || want[path] {
+		if strings.HasPrefix(path, "deps.dev/util/") || want[path] {
 			pk = append(pk, p)
 		}
 	}
 	sort.Slice(pk, func(i, j int) bool { return pk[i].Pkg.Path() < pk[j].Pkg.Path() })
 	for _, p := range pk {
+		t0 := time.Now()
 		e.ensureInit(nil, p)
+		if os.Getenv("GOSYM_DEBUG_INITTIME") != "" {
+			fmt.Fprintf(os.Stderr, "init %s: %v\n", p.Pkg.Path(), time.Since(t0))
+		}
 	}
 }
 
